@@ -48,13 +48,18 @@ def VLOOKUP(
         raise xlerrors.ValueExcelError(
             'col_index_num is greater than the number of cols in table_array')
 
-    table_array = table_array.set_index(0)
+    if col_index_num < 1:
+        raise xlerrors.ValueExcelError('col_index_num is less than 1')
 
-    if lookup_value not in table_array.index:
-        raise xlerrors.NaExcelError(
-            '`lookup_value` not in first column of `table_array`.')
+    # The first row whose key equals the lookup value; the requested column
+    # of that row.
+    for row in table_array.values:
+        if not isinstance(row[0], xlerrors.ExcelError) \
+                and row[0] == lookup_value:
+            return row[col_index_num - 1]
 
-    return table_array.loc[lookup_value].values[0]
+    raise xlerrors.NaExcelError(
+        '`lookup_value` not in first column of `table_array`.')
 
 
 @xl.register()
